@@ -440,7 +440,10 @@ fn execute(plan: &AliasPlan, mode: Mode) -> RunOut {
             out.violations.push(Violation::new("C05/alias", key, format!("label values {:?} were requested but no child with these values is collected (children: {:?})", t, seen.keys().collect::<Vec<_>>())));
         }
     }
-    out.signature = out.signature.wrapping_add(crate::rng::splitmix(plan.requests.len() as u64 ^ plan.env.hash_seed));
+    // distinct = distinct workload shapes (kind, labels, constants, requests, threads), not seeds
+    let mut fp = crate::rng::Fp::default();
+    fp.str(&serde_json::to_string(&(&plan.kind, &plan.labels, &plan.consts, &plan.requests, plan.nthreads)).unwrap());
+    out.signature = fp.0;
     out.probes.push(("invalid_requests", tuples.iter().filter(|t| t.is_none()).count() as u64));
     out.probes.push(("same_concatenation_pairs", {
         let ks: Vec<&Vec<String>> = want.keys().collect();
@@ -513,7 +516,7 @@ impl Scenario for C05 {
     }
     fn info(&self) -> Info {
         Info {
-            rule: "one run = one vector (counter/int counter/gauge/int gauge/histogram or a local counter/int counter/histogram vector; 1-3 labels; 0-2 constant labels) and 2-8 requests whose tuples are adversarial splits of one string (so tuples differing only in where a value ends are frequent), values form or map form in shuffled key order under a seed-controlled hash seed, 12% deliberately invalid; request i adds weight 2^(i+8) so every handle's value names exactly the requests that share its child; executed on 1-2 simulated threads; every run is counted non-trivial (it has >=2 requests); distinct = distinct (plan, schedule) signatures",
+            rule: "one run = one vector (counter/int counter/gauge/int gauge/histogram or a local counter/int counter/histogram vector; 1-3 labels; 0-2 constant labels) and 2-8 requests whose tuples are adversarial splits of one string (so tuples differing only in where a value ends are frequent), values form or map form in shuffled key order under a seed-controlled hash seed, 12% deliberately invalid; request i adds weight 2^(i+8) so every handle's value names exactly the requests that share its child; executed on 1-2 simulated threads; every run is counted non-trivial (it has >=2 requests); distinct = distinct workloads (kind, label names, constants, request list, thread count), seeds and schedules not counted",
             assumptions: vec!["group C property: the schedule dimension is exercised but the oracle is a sequential reference model (DESIGN 6/C05)"],
             real: vec!["prometheus::{CounterVec,IntCounterVec,GaugeVec,IntGaugeVec,HistogramVec} and local vectors (all code)"],
             stubbed: vec!["thread scheduling", "OS randomness for hash seeds"],
